@@ -76,8 +76,13 @@ def gen_script(rnd, long=False):
                 ops.append(["send", rnd.choice(S.KINDS), "idem", rnd.choice(["t1", "t2", "t3"])])
             ops.append(["turns", rnd.randint(0, 3)])
             ops.append(["unstall"])
-        elif c < 0.96:
+        elif c < 0.95:
             ops.append(["q"])
+        elif c < 0.975:
+            # a message no frame has room for (its header may well encode): dropped, and
+            # nothing of it may reach the wire
+            ops.append(["send_bad", rnd.choice(["struct", "value", "unregistered"]),
+                        rnd.choice(["inline", "t1", "hdr"])])
         else:
             ops.append(["open"])   # open_socket() on a socket that is open already: a no-op
     return ops
@@ -105,6 +110,14 @@ def directed():
                                                for i in range(n)]
                    + [["on_connect_send", "quick_timer", "idem"], ["adv", 3.0],
                       ["send", "ac_ctrl", "idem", "inline"]])
+    # an unencodable message between good ones, sent at once and held for the next connection
+    for how in ("struct", "value"):
+        out.append([["q"], ["send", "zone_ctrl", "idem", "inline"], ["send_bad", how, "inline"],
+                    ["send", "ac_ctrl", "idem", "inline"], ["send_bad", how, "t1"],
+                    ["send", "quick_timer", "idem", "t2"]])
+        out.append([["net", "refuse", 0.0], ["send", "zone_ctrl", "idem", "inline"],
+                    ["send_bad", how, "inline"], ["send", "ac_ctrl", "idem", "inline"],
+                    ["adv", 3.0], ["send", "quick_timer", "idem", "inline"]])
     # expiry straddling: lifetime 0.5 / 1.0 vs reconnection after 2 s
     for pol, L in (("short", 0.5), ("conn", 1.0), ("idem", 30.0)):
         for d in (L - 1e-3, L - EPS, L, L + EPS, L + 1e-3):
@@ -278,8 +291,10 @@ def run_case(case):
     viol, obs = check(gen, run)
     for x in viol:
         x["log"] = H.log_slice(run.log, 30)
+    # (a message that cannot be encoded may be refused with the encoder's exception)
     unexpected = [r for r in run.sends if r["outcome"] not in ("ok", "pending", "QueueOverflowError",
-                                                              "cancelled")]
+                                                              "cancelled")
+                  and not r["kind"].startswith("bad:")]
     for r in unexpected:
         viol.append({"mechanism": "send-raised-unexpected-exception",
                      "detail": {"serial": r["serial"], "outcome": r["outcome"]}})
